@@ -1,4 +1,5 @@
 import LlirProofs.ResolveLemmas
+import LlirProofs.Core3Main
 import LlirModel.Generated.Facts
 /-! # C05 — Undefined or doubly defined names are reported as errors (property theorems only) -/
 namespace Llir.Props.C05
@@ -80,5 +81,47 @@ example : (translate
 example : (translate
     [⟨.func, "f", false, [], ["entry"], [], []⟩, ⟨.uselist, "#", false, [(.global, "f")], [], [], [("f", "entry")]⟩]
     [⟨.func, "f", false, [], ["entry"], [], []⟩, ⟨.uselist, "#", false, [(.global, "f")], [], [], [("f", "entry")]⟩]).isOk = true := by decide
+
+/-! ## M-Core-3: function bodies (asm/local.go on real instruction lines, not skeletons) -/
+
+/-- whatever the translation of a function body returns, it is never a function with a dangling, doubly defined or mis-kinded local: after
+    numbering (`fill`), every identifier is defined once, every operand and label use is defined, and every label operand is a block -/
+theorem core3_result_is_closed (f g : Core3.Func) (h : Core3.translate f = some g) :
+    ∃ l, Numbering.parseAssign (Core3.slotsOf f) = .ok l ∧
+      (Core3.defs (Core3.fill f l)).Nodup ∧ (∀ u ∈ Core3.uses (Core3.fill f l), u ∈ Core3.defs (Core3.fill f l)) ∧
+      (∀ u ∈ Core3.labUses (Core3.fill f l), u ∈ Core3.blockDefs (Core3.fill f l)) := by
+  unfold Core3.translate at h
+  split at h
+  · cases h
+  · rename_i l hl
+    refine ⟨l, hl, ?_⟩
+    simp only at h
+    split at h
+    · cases h
+    · rename_i hd
+      split at h
+      · rename_i hu
+        simp only [Bool.and_eq_true, List.all_eq_true] at hu
+        refine ⟨(Core3.hasDupI_false_iff_nodup _).mp (by simpa using hd), ?_, ?_⟩
+        · intro u hu'; simpa using hu.1 u hu'
+        · intro u hu'; simpa using hu.2 u hu'
+      · cases h
+
+/-- a duplicated definition (after numbering) is an error -/
+theorem core3_duplicate_is_error (f : Core3.Func) (l : List Numbering.Slot) (hl : Numbering.parseAssign (Core3.slotsOf f) = .ok l)
+    (h : Core3.hasDupI (Core3.defs (Core3.fill f l)) = true) : Core3.translate f = none := by
+  simp [Core3.translate, hl, h]
+
+/-- a use of an identifier the function does not define is an error -/
+theorem core3_undefined_is_error (f : Core3.Func) (l : List Numbering.Slot) (hl : Numbering.parseAssign (Core3.slotsOf f) = .ok l)
+    (u : Core3.Ident) (hu : u ∈ Core3.uses (Core3.fill f l)) (hd : u ∉ Core3.defs (Core3.fill f l)) : Core3.translate f = none := by
+  have : ((Core3.uses (Core3.fill f l)).all fun u => (Core3.defs (Core3.fill f l)).contains u) = false := by
+    rw [List.all_eq_false]; exact ⟨u, hu, by simpa using hd⟩
+  simp only [Core3.translate, hl, this, Bool.false_and, Bool.false_eq_true, if_false]
+  split <;> rfl
+
+/-- a numbering LLVM rejects is an error -/
+theorem core3_bad_numbering_is_error (f : Core3.Func) (h : Numbering.parseAssign (Core3.slotsOf f) = .error) : Core3.translate f = none := by
+  simp [Core3.translate, h]
 
 end Llir.Props.C05
